@@ -160,6 +160,7 @@ type SpecFunc struct {
 }
 
 type Contracts struct {
+	Lemmas     []*Clause // closed formulas over mathematical integers, discharged on every run
 	File       string
 	AssumeProp string // when set: the property being checked (see runAtClause)
 	Funcs      map[string]*FuncContract // incl. funcfield "(*T).f" keyed "ff:(*T).f" and interface "if:I.m"
@@ -222,6 +223,15 @@ func ParseContracts(path string) (*Contracts, error) {
 			curAnchor = nil
 		}
 		switch head {
+		case "lemma":
+			// lemma[Cxx] @label closed-formula
+			lab, body := splitLabel(rest)
+			ex, err := ParseExpr(body)
+			if err != nil {
+				return fmt.Errorf("line %d: %v", lineNo, err)
+			}
+			cs.Lemmas = append(cs.Lemmas, &Clause{Kind: "lemma", Props: props, Label: lab, Expr: ex, Text: body, Line: lineNo})
+			return nil
 		case "spec":
 			if strings.HasPrefix(rest, "const ") {
 				// spec const NAME type = value
